@@ -82,6 +82,7 @@ def params_from_cmd(config: Params) -> None:
     param_dict = {}
     # the tests string includes the test restrictions while the vm strings include the ones for the vm variants
     tests_str, nets_str, vm_strs = "", "", {vm: "" for vm in available_vms}
+    explicit_nets = None
 
     # main tokenizing loop
     for cmd_param in config["params"]:
@@ -107,6 +108,11 @@ def params_from_cmd(config: Params) -> None:
                 nets_str = (
                     "%s %s\n" % (key.replace("_nets", ""), value) if value else ""
                 )
+                if nets_str != "" and explicit_nets is not None:
+                    raise ValueError(
+                        f"Cannot specify a nets restriction '{nets_str.rstrip()}' together "
+                        f"with explicit net suffixes {explicit_nets}"
+                    )
                 # TODO: unify nets_str with vm_strs treatment across the Cartesian graph interface
                 param_dict["nets"] = " ".join(
                     param.all_suffixes_by_restriction(nets_str)
@@ -147,6 +153,7 @@ def params_from_cmd(config: Params) -> None:
                 )
             value = value.replace(",", " ")
             param_dict[key] = value
+            explicit_nets = value
         else:
             # NOTE: comma on the command line is space in a config file
             value = value.replace(",", " ")
